@@ -179,7 +179,11 @@ CLAIMS["C08"] = dict(
          "proves it closed and good, hence every schedule keeps each thread's variables instrumented during its call and "
          "ends on the original code with zero counters; for any number of threads the same holds when activation, "
          "deactivation and call entry are atomic (invariant of the life-cycle model). Without the lock operations the "
-         "same programs reach a bad state (witness). Real threads are driven by a sys.settrace scheduler through "
+         "same programs reach a bad state (witness). Bystanders — a thread whose own probe is on another function and "
+         "that calls the shared function while a probing thread activates / deactivates — are part of the model: their "
+         "call reads the code object, then the variable table (the kind of lookup is generated from fits_selector); "
+         "under every schedule of one probing thread and one bystander no call raises (C08_bystander_one_prober, "
+         "C08_bystander_all_schedules; larger configurations by the compiled model). Real threads are driven by a sys.settrace scheduler through "
          "sampled (quick) or all (thorough) two-preemption schedules and random ones; the shared state after every "
          "scheduled step is compared with the model and each thread's events/return value with its sequential run. If "
          "the discipline breaks, the compiled model searches a bad schedule and the scheduler replays it on real threads.",
